@@ -631,8 +631,12 @@ fn run(ctx: &mut Ctx) {
             Ok(Err(e)) => ctx.inconclusive(format!("execution seed {seed}: {e}")),
             Ok(Ok((violations, cases))) => {
                 ctx.stat("server_states", 1);
+                let (n, nt_n) = (cases.len(), cases.iter().filter(|c| c.1).count());
                 for (h, nt) in cases {
                     ctx.exec(h, nt);
+                }
+                if nt_n > 0 {
+                    ctx.sample(|| json!({"exec_seed": seed, "answers_over_the_wire_protocol": over_quic, "needs_asked_and_judged": n, "of_them_about_partial_cleared_or_unknown_versions": nt_n}));
                 }
                 for (sig, mut d) in violations {
                     d["exec_seed"] = json!(seed);
